@@ -2081,6 +2081,16 @@ impl<'a> Gen<'a> {
             let nt = [(1u32, 1u32, 1u32), (8, 8, 1), (64, 1, 1), (4, 2, 3)][self.pick(4)];
             let mut stages: Vec<(&'static str, Name)> = Vec::new();
             let mut numthreads = None;
+            // a variant of an earlier pipeline: the same entry points under another name and default bind group
+            let earlier: Vec<ScenePipeline> = self.prog.scene.pipelines.iter().filter(|sp| sp.kind == kind).cloned().collect();
+            if !earlier.is_empty() && self.pick(3) == 0 {
+                let base = earlier[self.pick(earlier.len())].clone();
+                let idx = self.prog.pipelines.len();
+                self.prog.pipelines.push(Pipeline { name: pname, stages: base.stages.clone(), default_group, extra: String::new() });
+                self.prog.items.push(Item::Pipeline(idx));
+                self.prog.scene.pipelines.push(ScenePipeline { name: pname, kind, stages: base.stages.clone(), numthreads: base.numthreads, reachable: base.reachable.clone(), default_group });
+                continue;
+            }
             match kind {
                 "compute" => {
                     let e = self.fresh("cs_main");
